@@ -429,7 +429,14 @@ def run(prog, rep, tier, repo):
         ret = forms.get('order::' + name)
         want = frozenset([('red', 'fold', frozenset([('m', name, ('sym', 'acc'), ('sym', 'X')), ('c', float('nan'))]))])
         ok = ret is not None and len(ret) == 1 and _fold_of(next(iter(ret)), name)
-        (rep.ok if ok else rep.viol)('wiring', key, '%s folds f64::%s over the elements' % (name, name) if ok else '%s is %s' % (name, show_expr(ret) if ret else None), site_of(pdb.bodies.get(k)))
+        txt_ = show_expr(ret) if ret else ''
+        other_ = 'max' if name == 'min' else 'min'
+        if ok:
+            rep.ok('wiring', key, '%s folds f64::%s over the elements' % (name, name))
+        elif ret is None or ('.%s(' % other_) in txt_ or ('.%s(' % name) not in txt_:
+            rep.viol('wiring', key, '%s is %s' % (name, txt_ or None), site_of(pdb.bodies.get(k)))
+        else:
+            rep.undecided('wiring', key, '%s uses f64::%s but not as a plain fold over the elements: %s' % (name, name, txt_[:100]), site_of(pdb.bodies.get(k)), proof=False)
     f = prog.func(ST + 'moments::mean')
     key = 'wiring:mean'
     if f is not None:
@@ -474,7 +481,7 @@ def run(prog, rep, tier, repo):
 
 
 def _fold_of(e, name):
-    return e[0] == 'red' and e[1] == 'fold' and any(x[0] == 'm' and x[1] == name and set(x[2:]) == {('sym', 'acc'), ('sym', 'X')} for x in e[2]) \
+    return e[0] == 'red' and e[1] in ('fold', 'acc') and any(x[0] == 'm' and x[1] == name and set(x[2:]) == {('sym', 'acc'), ('sym', 'X')} for x in e[2]) \
         and not any(x[0] == 'm' and x[1] != name for x in e[2])
 
 
